@@ -59,6 +59,10 @@ class CallMixin(CompMixin):
     def call_value(self, st, fn, args, kw, node):
         if isinstance(fn, VClass):
             return self.construct(st, fn.name, args, kw, node)
+        if isinstance(fn, VModule):
+            # a function of a module that is not part of the repository (gzip.open, pickle.dump, ...): only callable when
+            # the contract under verification (or the configuration) declares it external
+            return self.call_qual(st, fn.name, args, kw, node)
         if not isinstance(fn, VFunc):
             raise Unsupported(f"call of {fn!r}")
         k = fn.kind
